@@ -129,7 +129,7 @@ contract(SMT + "._solve_targets_of_an_item", params={"an_item": Item}, requires=
     raises=[], modifies=["SMTracker._instances_dict[self]"],
     loops={0: {"invariant": [NODUP, "forall(Name, lambda x: implies(old(x in %s), x in %s))" % (SD, SD),
                              "forall(Int, lambda t: implies(0 <= t and t < _i0, _seq0[t] in %s and %s))" % (SD, HASLABEL.format("_seq0[t]"))]}},
-    props=["C10", "C01"],
+    props=["C10", "C01", "C02"],
     note="the label lists stay duplicate-free: a node delivered several times by a selector (or by two items with one label) is ONE instance of the shape")
 
 # ---- all_classes_mode combined with a shape map (C10 "both together"): union of the two node->labels dictionaries ----------------------
